@@ -8,12 +8,14 @@ from lib import vlib
 
 OVL = os.path.dirname(os.path.abspath(__file__))
 ASAN = ['-fsanitize=address', '-fno-omit-frame-pointer', '-g1']
+TSAN = ['-fsanitize=thread', '-g1']
+TSAN_ENV = {'TSAN_OPTIONS': 'halt_on_error=0:exitcode=0'}
 NTU = {('C16', 'avx2'): 7, ('C16', 'avx512'): 4, ('C17', 'avx2'): 4, ('C17', 'avx512'): 2}
 
 
 def steps_for(ctx, prop):
     isas = ['avx2'] + (['avx512'] if ctx.hardware_avx512 else [])
-    return [('%s_%s_%s' % (prop.lower(), isa, mode), isa, mode) for isa in isas for mode in ('plain', 'asan')]
+    return [('%s_%s_%s' % (prop.lower(), isa, mode), isa, mode) for isa in isas for mode in ('plain', 'asan', 'tsan')]
 
 
 def build(ctx, prop, main_cpp, only_step=None, extra_objs=(), extra_links=()):
@@ -40,7 +42,7 @@ def build(ctx, prop, main_cpp, only_step=None, extra_objs=(), extra_links=()):
         ctx.ovl_items, ctx.ovl_notes = g['items'], g['notes']
     for name, isa, mode in steps:
         g = gens[isa]
-        fl = ctx.flags_native(avx512=(isa == 'avx512'), extra=inc + (ASAN if mode == 'asan' else []))
+        fl = ctx.flags_native(avx512=(isa == 'avx512'), omp=(mode != 'tsan'), extra=inc + (ASAN if mode == 'asan' else TSAN if mode == 'tsan' else []))
         mine = []
         for k, tu in enumerate(g['tus']):
             on = '%s_w%d.o' % (name, k)
@@ -77,6 +79,8 @@ def explore(ctx, prop):
         'alias forms (rule: decls.can_share)': {it['id']: it['alias'] for it in items if it.get('alias')},
         'alias enumeration': 'shared object gets one geometry (unit/identity when a unit array is involved, else same stride or same index pattern); '
                              'quick: strides {unit,5}, indices {identity,scattered}, tags + 11 rotations x d_b in {0,5}; thorough: full stride/index alphabets, all d_b',
+        'huge strides (plain build)': '{715827883, 2^31+5, 2^32+7} on every scalar-stride array carrier (each alone and all together, tag pass) on a PROT_NONE reservation with only the designated pages present; 32-bit stride parameters only get values that fit',
+        're-entrancy (ThreadSanitizer build)': 'every overload from 3 threads at once on private heap blocks (tag pass, stride 5 / scattered indices, 8 repetitions): results vs sequential oracle, any data-race report = violation',
         'isa': [s[0] for s in ctx.ovl_steps],
     })
     for nt in ctx.ovl_notes:
@@ -87,6 +91,6 @@ def explore(ctx, prop):
         ctx.exhaustive = False
     for name, isa, mode in ctx.ovl_steps:
         if name in ctx.bins:
-            ctx.run_step(name, ctx.bins[name], tag=name)
+            ctx.run_step(name, ctx.bins[name], tag=name, env=(TSAN_ENV if mode == 'tsan' else None))
     # every explored case is an execution of the compiled library code itself
     ctx.stats['traces_validated_against_impl'] = ctx.stats.get('transitions', 0)
